@@ -352,30 +352,7 @@ func runC02(w *World, r *Report) {
 
 	// ---- successors-complete
 	r.Rule("C02.successors-complete", "getSuccessors = data edges + control edges + branch targets", 3)
-	gs := w.Fn("compose", "getSuccessors")
-	for _, fld := range []struct{ typ, name string }{{"chanCall", "writeTo"}, {"chanCall", "controls"}, {"GraphBranch", "endNodes"}} {
-		f := w.Field("compose", fld.typ, fld.name)
-		used := false
-		instrs(gs, func(in ssa.Instruction) {
-			switch x := in.(type) {
-			case *ssa.Call:
-				if isBuiltin(x, "copy") || isBuiltin(x, "append") {
-					for _, a := range x.Call.Args {
-						if isLoadOfField(a, f) {
-							used = true
-						}
-					}
-				}
-			case *ssa.Range:
-				if isLoadOfField(x.X, f) {
-					// the range key must be appended
-					used = true
-				}
-			}
-		})
-		// and the result flows to the return: every append result chain reaches the return (checked by flowsTo on the returned value)
-		r.Check(used, "C02.successors-complete", "getSuccessors includes "+fld.name, gs.Pos(), "copied/appended into the successor list", "successor table misses "+fld.name+": skip propagation (and readiness of data-only successors of a skipped node) breaks")
-	}
+	successorsCompleteCheck(w, r, "C02.successors-complete")
 
 	// ---- filter
 	r.Rule("C02.filter", "updateValues forwards only from declared data predecessors; updateDependencies only from declared control predecessors; unknown channels are errors", 4)
@@ -604,4 +581,33 @@ func reportSkipExact(w *World, r *Report, rule string) {
 		good = foundCmp
 	}
 	r.Check(good, rule, "dagChannel.reportSkip: skipped iff all control predecessors skipped", rs.Pos(), "Skipped computed from a scan comparing every state with dependencyStateSkipped", "skip condition changed")
+}
+
+// successorsCompleteCheck: shared by C02.successors-complete and C03.skip-reaches-every-successor.
+func successorsCompleteCheck(w *World, r *Report, rule string) {
+	gs := w.Fn("compose", "getSuccessors")
+	for _, fld := range []struct{ typ, name string }{{"chanCall", "writeTo"}, {"chanCall", "controls"}, {"GraphBranch", "endNodes"}} {
+		f := w.Field("compose", fld.typ, fld.name)
+		used := false
+		instrs(gs, func(in ssa.Instruction) {
+			switch x := in.(type) {
+			case *ssa.Call:
+				if isBuiltin(x, "copy") || isBuiltin(x, "append") {
+					for _, a := range x.Call.Args {
+						if isLoadOfField(a, f) {
+							used = true
+						}
+					}
+				}
+			case *ssa.Range:
+				if isLoadOfField(x.X, f) {
+					// the range key must be appended
+					used = true
+				}
+			}
+		})
+		// and the result flows to the return: every append result chain reaches the return (checked by flowsTo on the returned value)
+		r.Check(used, rule, "getSuccessors includes "+fld.name, gs.Pos(), "copied/appended into the successor list", "successor table misses "+fld.name+": skip propagation (and readiness of data-only successors of a skipped node) breaks")
+	}
+
 }
